@@ -757,7 +757,8 @@ class LongReadAssigner:
                 #             ", event cost " + str(event_cost) +
                 #             ". Updated penalty_score: " + str(penalty_score))
             # logger.debug("* * Final penalty_score for isoform " + isoform_id + ": " + str(penalty_score))
-            isoform_scores.append((isoform_id, penalty_score))
+            # equal sets of events must give equal scores whatever the order they are summed in
+            isoform_scores.append((isoform_id, round(penalty_score, 6)))
 
         min_penalty_score = min(isoform_scores, key=lambda x:x[1])[1]
         # logger.debug("* * Best penalty_score " + str(min_penalty_score))
